@@ -13,6 +13,7 @@ import (
 
 	"google.golang.org/grpc"
 
+	"github.com/chrislusf/seaweedfs/weed/pb/master_pb"
 	"github.com/chrislusf/seaweedfs/weed/pb/volume_server_pb"
 	"github.com/chrislusf/seaweedfs/weed/sequence"
 	"github.com/chrislusf/seaweedfs/weed/storage/needle"
@@ -40,7 +41,10 @@ type dcSpec struct {
 	racks    []rackSpec
 	override map[string]topology.VerifCounts
 }
-type topoSpec struct{ dcs []dcSpec }
+type topoSpec struct {
+	dcs  []dcSpec
+	hist *histSpec // non-nil: the topology is the result of replaying these heartbeat events
+}
 
 func genCounts(r *hx.Rng, style int) topology.VerifCounts {
 	var c topology.VerifCounts
@@ -244,7 +248,519 @@ func ecTopo() topoSpec {
 	}}
 }
 
+// ---- heartbeat histories: the topology is built by the real master-side event handlers
+// (GetOrCreateDataNode, AdjustMaxVolumeCounts, SyncDataNodeRegistration,
+// IncrementalSyncDataNodeRegistration, SyncDataNodeEcShards, IncrementalSyncDataNodeEcShards,
+// UnRegisterDataNode) on a real topology.Topology.  The generator keeps its own mirror of what
+// every server holds (it never reads the master's state), so the event list depends on the
+// seed only; the Coq side recomputes the truth from the printed events. ----
+type volMsg struct {
+	id     uint32
+	disk   string
+	remote bool
+}
+type ecMsg struct {
+	id   uint32
+	disk string
+	bits uint32
+}
+type hnode struct {
+	dc, rack, ip string
+	disks        []string // raw disk type strings of the Join map; id i lives on disks[i % len]
+	joined       bool
+	vols         map[uint32]volMsg
+	ecs          map[uint32]uint32
+	max          map[string]uint32 // last reported non-zero max count per raw disk string
+}
+
+func toDt(d string) string {
+	if d == "hdd" {
+		return ""
+	}
+	return d
+}
+
+// the really free slots of the server for the raw disk d's type (AvailableSpaceFor's formula on
+// what the mirror holds)
+func (n *hnode) trueFree(d string) int {
+	free, ec := 0, 0
+	for k, m := range n.max {
+		if toDt(k) == toDt(d) {
+			free += int(m)
+		}
+	}
+	for _, v := range n.vols {
+		if toDt(v.disk) == toDt(d) && !v.remote {
+			free--
+		}
+	}
+	for id, b := range n.ecs {
+		if toDt(n.diskOf(id)) == toDt(d) {
+			for ; b != 0; b &= b - 1 {
+				ec++
+			}
+		}
+	}
+	if ec > 0 {
+		free -= ec/10 + 1
+	}
+	return free
+}
+
+func (n *hnode) id() string              { return n.ip + ":80" }
+func (n *hnode) key() string             { return n.dc + "/" + n.rack + "/" + n.id() }
+func (n *hnode) pathTerm() string        { return fmt.Sprintf("(P3 %s %s %s)", q(n.dc), q(n.rack), q(n.id())) }
+func (n *hnode) diskOf(id uint32) string { return n.disks[int(id)%len(n.disks)] }
+
+type hev struct {
+	kind        string // join adjust fullvol incvol fullec incec unregister
+	n           int
+	maxs        map[string]uint32
+	vols, vdels []volMsg
+	ecs, ecdels []ecMsg
+}
+type histSpec struct {
+	nodes []*hnode
+	evs   []hev
+	term  string // Coq list of ops
+}
+
+func coqMaxs(m map[string]uint32) string {
+	keys := make([]string, 0, len(m))
+	for k := range m {
+		keys = append(keys, k)
+	}
+	sort.Strings(keys)
+	var xs []string
+	for _, k := range keys {
+		xs = append(xs, fmt.Sprintf("M %s %d", q(k), m[k]))
+	}
+	return hx.List(xs)
+}
+
+func (h *histSpec) evTerm(e hev) string {
+	n := h.nodes[e.n]
+	var a, b []string
+	switch e.kind {
+	case "join":
+		return fmt.Sprintf("HJoin %s %s %s %s", q(n.dc), q(n.rack), q(n.id()), coqMaxs(e.maxs))
+	case "adjust":
+		return fmt.Sprintf("HAdjustMax %s %s", n.pathTerm(), coqMaxs(e.maxs))
+	case "fullvol":
+		for _, v := range e.vols {
+			a = append(a, fmt.Sprintf("MV %d %s %s false", v.id, q(v.disk), hx.Bool(v.remote)))
+		}
+		return fmt.Sprintf("HFullVol %s %s", n.pathTerm(), hx.List(a))
+	case "incvol":
+		for _, v := range e.vols {
+			a = append(a, fmt.Sprintf("VS %d %s", v.id, q(v.disk)))
+		}
+		for _, v := range e.vdels {
+			b = append(b, fmt.Sprintf("VS %d %s", v.id, q(v.disk)))
+		}
+		return fmt.Sprintf("HIncVol %s %s %s", n.pathTerm(), hx.List(a), hx.List(b))
+	case "fullec":
+		for _, x := range e.ecs {
+			a = append(a, fmt.Sprintf("ME %d %s %d", x.id, q(x.disk), x.bits))
+		}
+		return fmt.Sprintf("HFullEc %s %s", n.pathTerm(), hx.List(a))
+	case "incec":
+		for _, x := range e.ecs {
+			a = append(a, fmt.Sprintf("ME %d %s %d", x.id, q(x.disk), x.bits))
+		}
+		for _, x := range e.ecdels {
+			b = append(b, fmt.Sprintf("ME %d %s %d", x.id, q(x.disk), x.bits))
+		}
+		return fmt.Sprintf("HIncEc %s %s %s", n.pathTerm(), hx.List(a), hx.List(b))
+	case "unregister":
+		return fmt.Sprintf("HUnregister %s", n.pathTerm())
+	}
+	panic("bad event kind " + e.kind)
+}
+
+func (h *histSpec) finish() {
+	var xs []string
+	for _, e := range h.evs {
+		xs = append(xs, h.evTerm(e))
+	}
+	h.term = hx.List(xs)
+}
+
+// replay on a new real Topology
+func (h *histSpec) replay(withServers bool) *topology.Topology {
+	topo := topology.NewTopology("topo", sequence.NewMemorySequencer(), 32*1024, 5, false)
+	dns := make([]*topology.DataNode, len(h.nodes))
+	ecl := func(es []ecMsg) []*master_pb.VolumeEcShardInformationMessage {
+		var ms []*master_pb.VolumeEcShardInformationMessage
+		for _, x := range es {
+			ms = append(ms, &master_pb.VolumeEcShardInformationMessage{Id: x.id, EcIndexBits: x.bits, DiskType: x.disk})
+		}
+		return ms
+	}
+	short := func(vs []volMsg) []*master_pb.VolumeShortInformationMessage {
+		var ms []*master_pb.VolumeShortInformationMessage
+		for _, v := range vs {
+			ms = append(ms, &master_pb.VolumeShortInformationMessage{Id: v.id, DiskType: v.disk, Version: uint32(needle.CurrentVersion)})
+		}
+		return ms
+	}
+	for _, e := range h.evs {
+		n := h.nodes[e.n]
+		dn := dns[e.n]
+		if dn == nil && e.kind != "join" {
+			panic("event for a server that is not registered")
+		}
+		switch e.kind {
+		case "join":
+			dns[e.n] = topo.GetOrCreateDataCenter(n.dc).GetOrCreateRack(n.rack).GetOrCreateDataNode(n.ip, 80, n.ip, e.maxs)
+		case "adjust":
+			dn.AdjustMaxVolumeCounts(e.maxs)
+		case "fullvol":
+			var ms []*master_pb.VolumeInformationMessage
+			for _, v := range e.vols {
+				m := &master_pb.VolumeInformationMessage{Id: v.id, Size: 1000, DiskType: v.disk, Version: uint32(needle.CurrentVersion)}
+				if v.remote {
+					m.RemoteStorageName, m.RemoteStorageKey = "s3", "k"
+				}
+				ms = append(ms, m)
+			}
+			topo.SyncDataNodeRegistration(ms, dn)
+		case "incvol":
+			topo.IncrementalSyncDataNodeRegistration(short(e.vols), short(e.vdels), dn)
+		case "fullec":
+			topo.SyncDataNodeEcShards(ecl(e.ecs), dn)
+		case "incec":
+			topo.IncrementalSyncDataNodeEcShards(ecl(e.ecs), ecl(e.ecdels), dn)
+		case "unregister":
+			topo.UnRegisterDataNode(dn)
+			dns[e.n] = nil
+		}
+	}
+	if withServers {
+		for i, dn := range dns {
+			if dn != nil {
+				dn.Ip = "127.0.0.1"
+				dn.Port = fakePort(h.nodes[i].key())
+			}
+		}
+	}
+	return topo
+}
+
+// the id tree after the history (for genOpt and the replication bias)
+func (h *histSpec) spec() topoSpec {
+	t := topoSpec{hist: h}
+	for _, n := range h.nodes {
+		if !n.joined {
+			continue
+		}
+		var dc *dcSpec
+		for i := range t.dcs {
+			if t.dcs[i].id == n.dc {
+				dc = &t.dcs[i]
+			}
+		}
+		if dc == nil {
+			t.dcs = append(t.dcs, dcSpec{id: n.dc})
+			dc = &t.dcs[len(t.dcs)-1]
+		}
+		var rk *rackSpec
+		for i := range dc.racks {
+			if dc.racks[i].id == n.rack {
+				rk = &dc.racks[i]
+			}
+		}
+		if rk == nil {
+			dc.racks = append(dc.racks, rackSpec{id: n.rack})
+			rk = &dc.racks[len(dc.racks)-1]
+		}
+		rk.nodes = append(rk.nodes, nodeSpec{id: n.id()})
+	}
+	return t
+}
+
+func shardBits(r *hx.Rng) uint32 {
+	b := uint32(r.Next()) & 0x3fff
+	switch r.Intn(4) {
+	case 0: // few shards
+		b &= uint32(r.Next()) & uint32(r.Next())
+	case 1:
+		b &= uint32(r.Next())
+	}
+	if b == 0 {
+		b = 1 << uint(r.Intn(14))
+	}
+	return b
+}
+
+type histGen struct {
+	r *hx.Rng
+	h *histSpec
+}
+
+func (g *histGen) add(e hev) { g.h.evs = append(g.h.evs, e) }
+
+func (g *histGen) join(i int) {
+	r, n := g.r, g.h.nodes[i]
+	m := map[string]uint32{}
+	for _, d := range n.disks {
+		m[d] = uint32(r.Range(2, 5))
+		if r.Chance(1, 8) {
+			m[d] = uint32(r.Range(0, 5))
+		}
+	}
+	g.add(hev{kind: "join", n: i, maxs: m})
+	n.joined, n.vols, n.ecs, n.max = true, map[uint32]volMsg{}, map[uint32]uint32{}, map[string]uint32{}
+	for d, v := range m {
+		n.max[d] = v
+	}
+	if r.Bool() { // SendHeartbeat adjusts right after creating the node
+		g.add(hev{kind: "adjust", n: i, maxs: m})
+	}
+}
+
+func sortedVolIds(m map[uint32]volMsg) []uint32 {
+	var ks []uint32
+	for k := range m {
+		ks = append(ks, k)
+	}
+	sort.Slice(ks, func(i, j int) bool { return ks[i] < ks[j] })
+	return ks
+}
+func sortedEcIds(m map[uint32]uint32) []uint32 {
+	var ks []uint32
+	for k := range m {
+		ks = append(ks, k)
+	}
+	sort.Slice(ks, func(i, j int) bool { return ks[i] < ks[j] })
+	return ks
+}
+
+// one random event on server i; the mirror follows what a volume server holds
+func (g *histGen) event(i int) {
+	r, n := g.r, g.h.nodes[i]
+	if !n.joined {
+		g.join(i)
+		return
+	}
+	switch k := r.Intn(20); {
+	case k < 4: // full volume heartbeat: everything the server holds
+		if r.Chance(1, 10) {
+			n.vols = map[uint32]volMsg{}
+		}
+		for _, id := range sortedVolIds(n.vols) {
+			v := n.vols[id]
+			if r.Chance(1, 4) {
+				delete(n.vols, id)
+				continue
+			}
+			if r.Chance(1, 8) {
+				v.remote = !v.remote
+				n.vols[id] = v
+			}
+		}
+		for j := r.Intn(3); j > 0; j-- {
+			id := uint32(r.Range(1, 6))
+			if _, ok := n.vols[id]; !ok {
+				n.vols[id] = volMsg{id, n.diskOf(id), r.Chance(1, 6)}
+			}
+		}
+		var vs []volMsg
+		for _, id := range sortedVolIds(n.vols) {
+			vs = append(vs, n.vols[id])
+		}
+		g.add(hev{kind: "fullvol", n: i, vols: vs})
+	case k < 8: // incremental volume heartbeat; deletes are applied first
+		var news, dels []volMsg
+		ids := sortedVolIds(n.vols)
+		for j := r.Intn(3); j > 0 && len(ids) > 0; j-- {
+			id := ids[r.Intn(len(ids))]
+			dels = append(dels, volMsg{id: id, disk: n.diskOf(id)})
+		}
+		if r.Chance(1, 4) { // stale: the volume is already gone / was never there
+			id := uint32(r.Range(1, 6))
+			dels = append(dels, volMsg{id: id, disk: n.diskOf(id)})
+		}
+		for j := r.Intn(3); j > 0; j-- {
+			id := uint32(r.Range(1, 6))
+			news = append(news, volMsg{id: id, disk: n.diskOf(id)})
+		}
+		for _, v := range dels {
+			delete(n.vols, v.id)
+		}
+		for _, v := range news {
+			n.vols[v.id] = v
+		}
+		g.add(hev{kind: "incvol", n: i, vols: news, vdels: dels})
+	case k < 12: // full EC heartbeat
+		if r.Chance(1, 10) {
+			n.ecs = map[uint32]uint32{}
+		}
+		for _, id := range sortedEcIds(n.ecs) {
+			if r.Chance(1, 4) {
+				delete(n.ecs, id)
+			} else if r.Chance(1, 2) {
+				b := (n.ecs[id] | shardBits(r)) &^ (shardBits(r) & shardBits(r))
+				if b == 0 {
+					b = 1
+				}
+				n.ecs[id] = b
+			}
+		}
+		for j := r.Intn(3); j > 0; j-- {
+			id := uint32(r.Range(10, 13))
+			if _, ok := n.ecs[id]; !ok {
+				n.ecs[id] = shardBits(r)
+			}
+		}
+		var es []ecMsg
+		for _, id := range sortedEcIds(n.ecs) {
+			es = append(es, ecMsg{id, n.diskOf(id), n.ecs[id]})
+		}
+		g.add(hev{kind: "fullec", n: i, ecs: es})
+	case k < 18: // incremental EC heartbeat; mounts are applied first
+		var news, dels []ecMsg
+		for j := r.Intn(2); j > 0; j-- {
+			id := uint32(r.Range(10, 13))
+			news = append(news, ecMsg{id, n.diskOf(id), shardBits(r)})
+		}
+		for _, x := range news {
+			n.ecs[x.id] |= x.bits
+		}
+		ids := sortedEcIds(n.ecs)
+		for j := r.Intn(3); j > 0 && len(ids) > 0; j-- {
+			id := ids[r.Intn(len(ids))]
+			held := n.ecs[id]
+			var b uint32
+			switch r.Intn(4) {
+			case 0: // some of the shards held
+				b = held & shardBits(r)
+				if b == 0 {
+					b = held
+				}
+			case 1: // all of them
+				b = held
+			case 2: // a re-sent / over-broad notice: names shards that are not held (any more)
+				b = shardBits(r)
+			default:
+				b = held | shardBits(r)
+			}
+			dels = append(dels, ecMsg{id, n.diskOf(id), b})
+		}
+		if r.Chance(1, 5) { // an EC volume the server does not hold at all
+			id := uint32(r.Range(10, 13))
+			dels = append(dels, ecMsg{id, n.diskOf(id), shardBits(r)})
+		}
+		for _, x := range dels {
+			if b, ok := n.ecs[x.id]; ok {
+				if b&^x.bits == 0 {
+					delete(n.ecs, x.id)
+				} else {
+					n.ecs[x.id] = b &^ x.bits
+				}
+			}
+		}
+		g.add(hev{kind: "incec", n: i, ecs: news, ecdels: dels})
+	case k < 19:
+		m := map[string]uint32{}
+		for _, d := range n.disks {
+			if r.Chance(2, 3) {
+				m[d] = uint32(r.Range(0, 6))
+				if m[d] != 0 {
+					n.max[d] = m[d]
+				}
+			}
+		}
+		g.add(hev{kind: "adjust", n: i, maxs: m})
+	default:
+		g.add(hev{kind: "unregister", n: i})
+		n.joined = false
+	}
+}
+
+func genHist(r *hx.Rng) topoSpec {
+	g := &histGen{r: r, h: &histSpec{}}
+	var places [][2]string
+	switch r.Intn(5) {
+	case 0, 1: // one rack
+		places = [][2]string{{"dc1", "r1"}, {"dc1", "r1"}, {"dc1", "r1"}}[:r.Range(2, 3)]
+	case 2: // two racks
+		places = [][2]string{{"dc1", "r1"}, {"dc1", "r2"}, {"dc1", "r1"}, {"dc1", "r2"}}[:r.Range(2, 4)]
+	case 3: // two data centers
+		places = [][2]string{{"dc1", "r1"}, {"dc2", "r1"}, {"dc1", "r1"}, {"dc2", "r1"}}[:r.Range(2, 4)]
+	default:
+		places = [][2]string{{"dc1", "r1"}, {"dc1", "r2"}, {"dc2", "r1"}, {"dc1", "r1"}}[:r.Range(3, 4)]
+	}
+	for i, p := range places {
+		n := &hnode{dc: p[0], rack: p[1], ip: fmt.Sprintf("n%d", i+1)}
+		switch r.Intn(10) {
+		case 0, 1, 2, 3, 4:
+			n.disks = []string{""}
+		case 5, 6, 7:
+			n.disks = []string{"", "ssd"}
+		case 8:
+			n.disks = []string{"hdd", "ssd"} // the alias of the hard drive type
+		default:
+			n.disks = []string{"ssd"}
+		}
+		g.h.nodes = append(g.h.nodes, n)
+	}
+	for i := range g.h.nodes {
+		g.join(i)
+	}
+	for k := r.Range(5, 14); k > 0; k-- {
+		g.event(r.Intn(len(g.h.nodes)))
+	}
+	// half of the servers end exactly full for one of their disk types: new volumes arrive until no
+	// slot is really free, so a counter that drifted earlier shows a slot that does not exist
+	for i, n := range g.h.nodes {
+		if !n.joined || !r.Bool() {
+			continue
+		}
+		d := n.disks[r.Intn(len(n.disks))]
+		var news []volMsg
+		for id := uint32(1); id <= 6 && n.trueFree(d) > 0; id++ {
+			if _, ok := n.vols[id]; !ok && n.diskOf(id) == d {
+				n.vols[id] = volMsg{id: id, disk: d}
+				news = append(news, n.vols[id])
+			}
+		}
+		if len(news) > 0 {
+			g.add(hev{kind: "incvol", n: i, vols: news})
+		}
+	}
+	any := false
+	for _, n := range g.h.nodes {
+		any = any || n.joined
+	}
+	if !any {
+		g.join(0)
+	}
+	g.h.finish()
+	return g.h.spec()
+}
+
+// fixed histories: a stale incremental EC delete (shards that are not held) on a server whose
+// slots are used up partly by EC shards; the counter must follow the shards really removed
+func staleEcDeleteHist(delBits uint32) topoSpec {
+	h := &histSpec{nodes: []*hnode{
+		{dc: "dc1", rack: "r1", ip: "n1", disks: []string{""}, joined: true},
+		{dc: "dc1", rack: "r1", ip: "n2", disks: []string{""}, joined: true}}}
+	h.evs = []hev{
+		{kind: "join", n: 0, maxs: map[string]uint32{"": 2}},
+		{kind: "join", n: 1, maxs: map[string]uint32{"": 2}},
+		{kind: "fullvol", n: 1, vols: []volMsg{{1, "", false}}},
+		{kind: "fullec", n: 1, ecs: []ecMsg{{10, "", 7}}},
+		{kind: "incec", n: 1, ecdels: []ecMsg{{10, "", delBits}}},
+	}
+	h.finish()
+	return h.spec()
+}
+
 func build(t topoSpec, withServers bool) *topology.Topology {
+	if t.hist != nil {
+		return t.hist.replay(withServers)
+	}
 	topo := topology.NewTopology("topo", sequence.NewMemorySequencer(), 32*1024, 5, false)
 	for _, d := range t.dcs {
 		dc := topology.NewDataCenter(d.id)
@@ -389,7 +905,7 @@ func main() {
 	out := hx.Flags("C10", 400)
 	hx.Must(fla9.Set("alsologtostderr", "false")) // glog: keep the "adds child" chatter off stderr
 	hx.Must(fla9.Set("v", "-1"))
-	out.Rule = "topologies built from the real node objects: (a) 1-3 data centers x 0-3 racks x 1-3 nodes, per node and disk type (hdd \"\", ssd) max/used/remote volume counts and EC shard counts applied with the real UpAdjustDiskUsageDelta, a tenth of the racks/DCs with counters overwritten at that level only; (b) plentiful 3x3x3 (and smaller) trees where every node has a free slot, so that every replication 000..222 succeeds; (c) big trees with fan-out 4-5 at one or two levels (model enumeration skipped, placement rule and success condition checked). Per topology 9 options (replication cycling through all 27 strings, disk type, preferred dc/rack/node incl. unknown dc and rack-without-dc) x 2 math/rand seeds. A third of the calls on (a)/(b) continue like findAndGrow with the real VolumeGrowth.grow against in-process gRPC volume servers (one per data node) whose AllocateVolume follows a fail plan (none / the i-th call refused); observed: RPCs received in order, error, data nodes holding the new volume id, Topology.Lookup, and the counters of every level after the call(s). First cases: volume_growth_test topology, a rack whose EC-shard counter hides that its nodes are full, the partial-grow witness (001, second AllocateVolume refused), 222 on a full 3x3x3 tree; non-trivial = a placement was returned; distinct = topology+option+seed+plan"
+	out.Rule = "topologies built from the real node objects: (a) 1-3 data centers x 0-3 racks x 1-3 nodes, per node and disk type (hdd \"\", ssd) max/used/remote volume counts and EC shard counts applied with the real UpAdjustDiskUsageDelta, a tenth of the racks/DCs with counters overwritten at that level only; (b) plentiful 3x3x3 (and smaller) trees where every node has a free slot, so that every replication 000..222 succeeds; (c) big trees with fan-out 4-5 at one or two levels (model enumeration skipped, placement rule and success condition checked); (d) a third of the topologies (a fifth of the cases) are built by replaying a heartbeat HISTORY on a real topology.Topology: 2-4 volume servers in 1-3 racks / 1-2 data centers with Join-map disk types {\"\"}, {\"\",ssd}, {hdd,ssd} or {ssd} and max counts 2-5, then 5-14 events - full and incremental volume heartbeats (ids 1-6, remote flag, stale deletes), full and incremental EC shard heartbeats (ids 10-13, 14-bit shard masks; deletes naming some / all / other / more shard ids than the server holds, and EC volumes it does not hold), AdjustMaxVolumeCounts, UnRegisterDataNode and re-join; half of the servers then receive new volumes until no slot is really free; an id stays on one disk of a server (outside C12's findings 0 and 1); the generator keeps its own mirror of what the servers hold and never reads the master; the events are printed and the Coq side recomputes what every server holds from them alone; 4 options per history (half of them demanding: no preference, a replication that needs every server of the largest rack). Per topology 9 options (replication cycling through all 27 strings, disk type, preferred dc/rack/node incl. unknown dc and rack-without-dc) x 2 math/rand seeds. A third of the calls on (a)/(b) continue like findAndGrow with the real VolumeGrowth.grow against in-process gRPC volume servers (one per data node) whose AllocateVolume follows a fail plan (none / the i-th call refused); observed: RPCs received in order, error, data nodes holding the new volume id, Topology.Lookup, and the counters of every level after the call(s). First cases: volume_growth_test topology, a rack whose EC-shard counter hides that its nodes are full, the partial-grow witness (001, second AllocateVolume refused), 222 on a full 3x3x3 tree, four histories with an incremental EC delete naming shard ids that are not held on a server whose slots are used up partly by EC shards; non-trivial = a placement was returned; distinct = topology+option+seed+plan"
 	// Fork: consecutive seeds of hx.NewRng are one stream shifted by one draw
 	root := hx.NewRng(out.Seed).Fork()
 	vg := topology.NewDefaultVolumeGrowth()
@@ -463,9 +979,17 @@ func main() {
 		optTerm := fmt.Sprintf("(Op %s %s %s %s %d %d %d)",
 			q(string(option.DiskType)), q(o.dc), q(o.rack), q(o.node),
 			rp.DiffDataCenterCount, rp.DiffRackCount, rp.SameRackCount)
-		c := fmt.Sprintf("Build_case %s %s %s %s %s %s %s %s %s %s %s", term, optTerm, hx.Bool(big), hx.List(ss), hx.Bool(e != nil),
+		histTerm := "None"
+		if t.hist != nil {
+			histTerm = "(Some " + t.hist.term + ")"
+			out.Count("history", 1)
+			if e == nil {
+				out.Count("history:placed", 1)
+			}
+		}
+		c := fmt.Sprintf("Build_case %s %s %s %s %s %s %s %s %s %s %s %s", term, histTerm, optTerm, hx.Bool(big), hx.List(ss), hx.Bool(e != nil),
 			planTerm, hx.List(calls), hx.Bool(growErr), hx.List(holders), hx.List(layout), after)
-		canon := term + "|" + optTerm + "|" + fmt.Sprint(seed) + "|" + planTerm
+		canon := term + "|" + histTerm + "|" + optTerm + "|" + fmt.Sprint(seed) + "|" + planTerm
 		out.Add(c, canon, e == nil, kind)
 		out.Count("rp:"+o.rp, 1)
 		if big {
@@ -520,6 +1044,10 @@ func main() {
 		{ecTopo(), optSpec{rp: "011"}, nil},
 		{full(), optSpec{rp: "222"}, nil},
 		{full(), optSpec{rp: "222", dc: "dc2", rack: "r3", node: "n1"}, []bool{false, false, false, false, true}},
+		{staleEcDeleteHist(120), optSpec{rp: "001"}, nil},      // n2 stays full (3 shards, none of the named ones held): error
+		{staleEcDeleteHist(120), optSpec{rp: "000"}, []bool{}}, // n1 only
+		{staleEcDeleteHist(127), optSpec{rp: "001"}, []bool{}}, // all three shards (and four more named) go: n2 has a slot
+		{staleEcDeleteHist(126), optSpec{rp: "001"}, nil},      // one shard stays: still full
 	}
 	for i, f := range fixed {
 		if out.Len() >= out.N {
@@ -530,8 +1058,10 @@ func main() {
 	for out.Len() < out.N {
 		r := root.Fork()
 		var t topoSpec
-		style := r.Intn(10)
+		style := r.Intn(15)
 		switch {
+		case style >= 10: // heartbeat history on a real Topology
+			t = genHist(r)
 		case style < 5:
 			t = genTopo(r)
 		case style < 8:
@@ -544,12 +1074,16 @@ func main() {
 			t = genBig(r)
 		}
 		big := isBig(t)
-		for k := 0; k < 9 && out.Len() < out.N; k++ {
+		nopt := 9
+		if style >= 10 {
+			nopt = 4 // more histories, fewer options per history
+		}
+		for k := 0; k < nopt && out.Len() < out.N; k++ {
 			x, y, z := rpIdx/9%3, rpIdx/3%3, rpIdx%3
 			rpIdx++
 			// two thirds of the time bias towards replications the topology may satisfy
 			// (not on the plentiful trees: there every replication is tried as it comes)
-			if style < 5 && r.Chance(2, 3) || style >= 8 && r.Chance(1, 2) {
+			if (style < 5 || style >= 10) && r.Chance(2, 3) || style >= 8 && style < 10 && r.Chance(1, 2) {
 				minR, minN := 3, 3
 				for _, d := range t.dcs {
 					if len(d.racks) > 0 && len(d.racks) < minR {
@@ -563,7 +1097,32 @@ func main() {
 				}
 				x, y, z = r.Intn(len(t.dcs))%3, r.Intn(minR+1)%3, r.Intn(minN+1)%3
 			}
+			demanding := style >= 10 && r.Chance(1, 2)
+			if demanding {
+				// history cases: a replication that needs (nearly) every server of the main rack
+				maxR, maxN := 1, 1
+				for _, d := range t.dcs {
+					if len(d.racks) > maxR {
+						maxR = len(d.racks)
+					}
+					for _, rk := range d.racks {
+						if len(rk.nodes) > maxN {
+							maxN = len(rk.nodes)
+						}
+					}
+				}
+				x, y, z = r.Intn(len(t.dcs))%3, r.Intn(maxR)%3, (maxN-1)%3
+				if r.Chance(1, 3) {
+					z = r.Intn(maxN) % 3
+				}
+			}
 			o := genOpt(r, t, fmt.Sprintf("%d%d%d", x, y, z))
+			if demanding {
+				o.dc, o.rack, o.node = "", "", ""
+				if r.Chance(3, 4) {
+					o.disk = ""
+				}
+			}
 			if style >= 5 && style < 8 && r.Chance(1, 2) {
 				o.dc, o.rack, o.node = "", "", ""
 			}
